@@ -33,13 +33,14 @@ type Step struct {
 
 // Case is one generated multi-definition program with an evaluation history.
 type Case struct {
-	Kind    string  `json:"kind"` // args | noargs
+	Kind    string  `json:"kind"` // args | noargs | probe | reeval | reeval-inventory
 	Fns     []Fn    `json:"fns"`
 	Globals []int64 `json:"globals"` // initial values of *@g0*, *@g1*, ...
 	Main    string  `json:"main"`
 	K       int     `json:"k"`              // evaluations of the same code object
 	Long    bool    `json:"long,omitempty"` // callee-first order, form-by-form modes: 100 evaluations of the same object
-	Hist    []Step  `json:"hist"`
+	Hist    []Step  `json:"hist,omitempty"`
+	Tree    *RNode  `json:"tree,omitempty"` // kind reeval: the form tree
 }
 
 type sig struct {
